@@ -113,3 +113,23 @@ package conf
 //@   assert-call copyStructFields: old(has(conf.OptionalPaths, name)) && dest == old(conf.OptionalPaths[name]).Values && source == optional2.Values
 //@   ensures [fails-on-missing-name] (result != nil) == !old(has(conf.OptionalPaths, name))
 //@   ensures [rejected-patch-copies-nothing] result != nil ==> called(copyStructFields) == 0
+
+// C19 (helpers): what "has an on-demand source / publisher" means, in terms of the configuration fields.
+
+//@ func (pconf Path) HasStaticSource
+//@   property C19
+//@   safety -all
+//@   pure
+//@   ensures [definition] result <==> (pconf.Source != "publisher" && pconf.Source != "redirect")
+
+//@ func (pconf Path) HasOnDemandStaticSource
+//@   property C19
+//@   safety -all
+//@   pure
+//@   ensures [definition] result <==> (pconf.Source != "publisher" && pconf.Source != "redirect" && pconf.SourceOnDemand)
+
+//@ func (pconf Path) HasOnDemandPublisher
+//@   property C19
+//@   safety -all
+//@   pure
+//@   ensures [definition] result <==> pconf.RunOnDemand != ""
